@@ -885,12 +885,26 @@ func (m *Model) stat(c *Conn, r Req, pr *pre, what string) error {
 
 // DirSizeTruth returns (sum following symlinks, sum of regular files proper, hasSymlink).
 func DirSizeTruth(dir string) (follow, proper int64, hasLink bool) {
+	// proper: the regular files beneath dir, links not followed.
+	// follow: links followed, every real directory entered once per request (by identity: links back to an ancestor
+	// or to a directory that is also reached otherwise add nothing), a link to a file counts with its target's size.
+	var visited []os.FileInfo
 	seen := 0
-	var rec func(p string, depth int)
-	rec = func(p string, depth int) {
-		if depth > 40 || seen > 200000 {
+	var rec func(p string, viaLink bool)
+	rec = func(p string, viaLink bool) {
+		if seen > 400000 {
 			return
 		}
+		di, err := os.Stat(p)
+		if err != nil {
+			return
+		}
+		for _, v := range visited {
+			if os.SameFile(v, di) {
+				return
+			}
+		}
+		visited = append(visited, di)
 		ents, err := os.ReadDir(p)
 		if err != nil {
 			return
@@ -909,23 +923,75 @@ func DirSizeTruth(dir string) (follow, proper int64, hasLink bool) {
 					continue
 				}
 				if fi.IsDir() {
-					f2, _, _ := DirSizeTruth(fp)
-					follow += f2
+					rec(fp, true)
 				} else {
 					follow += fi.Size()
 				}
 				continue
 			}
 			if li.IsDir() {
-				rec(fp, depth+1)
+				rec(fp, viaLink)
 				continue
 			}
 			follow += li.Size()
-			proper += li.Size()
+			if !viaLink {
+				proper += li.Size()
+			}
 		}
 	}
-	rec(dir, 0)
+	rec(dir, false)
 	return
+}
+
+// DirSizeNaive: links followed with every path counted (a directory reachable by two paths counts twice); -1 when
+// the links form a cycle, where this reading is not defined.
+func DirSizeNaive(dir string) int64 {
+	var stack []os.FileInfo
+	cyclic := false
+	steps := 0
+	var rec func(p string) int64
+	rec = func(p string) int64 {
+		steps++
+		if cyclic || steps > 400000 {
+			cyclic = true
+			return 0
+		}
+		di, err := os.Stat(p)
+		if err != nil {
+			return 0
+		}
+		for _, v := range stack {
+			if os.SameFile(v, di) {
+				cyclic = true
+				return 0
+			}
+		}
+		stack = append(stack, di)
+		defer func() { stack = stack[:len(stack)-1] }()
+		ents, err := os.ReadDir(p)
+		if err != nil {
+			return 0
+		}
+		var sum int64
+		for _, e := range ents {
+			fp := filepath.Join(p, e.Name())
+			fi, err := os.Stat(fp)
+			if err != nil {
+				continue
+			}
+			if fi.IsDir() {
+				sum += rec(fp)
+			} else {
+				sum += fi.Size()
+			}
+		}
+		return sum
+	}
+	n := rec(dir)
+	if cyclic {
+		return -1
+	}
+	return n
 }
 
 func (m *Model) dirSize(c *Conn, r Req, pr *pre, what string) error {
@@ -947,7 +1013,9 @@ func (m *Model) dirSize(c *Conn, r Req, pr *pre, what string) error {
 	case fi.IsDir():
 		follow, proper, _ := DirSizeTruth(real)
 		if got != follow && got != proper {
-			return failf("dirsize-truth", "%s: %s answered %d, truth %d (following links) / %d (regular files proper)", what, clean, got, follow, proper)
+			if naive := DirSizeNaive(real); naive < 0 || got != naive {
+				return failf("dirsize-truth", "%s: %s answered %d, truth %d (following links, each directory once) / %d (regular files proper) / %d (every path through links; -1: cyclic)", what, clean, got, follow, proper, naive)
+			}
 		}
 	}
 	return nil
